@@ -83,8 +83,8 @@ func checkChain(r *mon.Run, es []elem, class string, sampleEvery int) {
 	key := "cc:" + class + ":" + d
 	var buf bytes.Buffer
 	var werr error
+	want := refEncode(es) // (before the writer sees the chain)
 	p, pv := r.Call("write/"+d, nil, func() { werr = toChain(es).Write(&buf) })
-	want := refEncode(es)
 	det := map[string]any{"chain": d, "class": class, "valid_pattern": valid(es), "write_error": fmt.Sprint(werr), "got": mon.Short(buf.Bytes()), "want": mon.Short(want)}
 	outcome := "ok"
 	switch {
@@ -115,7 +115,15 @@ func checkChain(r *mon.Run, es []elem, class string, sampleEvery int) {
 	// read side, fed by the reference encoder (valid and invalid patterns alike)
 	var got certurl.CertChain
 	var rerr error
-	p, pv = r.Call("read/"+d, want, func() { got, rerr = certurl.ReadCertChain(bytes.NewReader(want)) })
+	mem := append([]byte{}, want...) // the caller's memory, reused as soon as the call has returned
+	var src io.Reader = bytes.NewReader(mem)
+	if nCase%2 == 0 {
+		src = bytes.NewBuffer(mem)
+	}
+	p, pv = r.Call("read/"+d, want, func() { got, rerr = certurl.ReadCertChain(src) })
+	for i := range mem {
+		mem[i] = 0xCC
+	}
 	ro := "ok"
 	switch {
 	case p:
@@ -384,6 +392,36 @@ func run(r *mon.Run) {
 		checkChain(r, []elem{{cert: pool[0], ocsp: blob(g, 10)}, {cert: pool[0]}}, "same-cert-twice", 1)
 		checkChain(r, []elem{{cert: pool[1], ocsp: blob(g, 10), sct: blob(g, 5)}, {cert: pool[2]}, {cert: pool[1], sct: blob(g, 5)}}, "same-cert-twice", 1)
 		checkChain(r, []elem{{cert: pool[3], ocsp: blob(g, 0)}, {cert: pool[3]}, {cert: pool[3]}}, "same-cert-twice", 1)
+	}
+	// OCSP responses and SCT lists that are consecutive windows of one buffer (spare capacity reaching into the next blob)
+	for ai := 0; ai < 6; ai++ {
+		if !r.Mine(ai) {
+			continue
+		}
+		g := r.Rand("arena", ai)
+		n := 1 + ai%3
+		lens := make([]int, 2*n)
+		total := 0
+		for i := range lens {
+			lens[i] = mon.Pick(g, []int{0, 1, 23, 24, 255, 256, 1000})
+			total += lens[i]
+		}
+		arena := make([]byte, total+32)
+		for i := range arena {
+			arena[i] = byte(1 + g.Intn(255))
+		}
+		es := make([]elem, n)
+		off := 0
+		for i := range es {
+			es[i].cert = pool[(ai+i)%len(pool)]
+			if i == 0 {
+				es[i].ocsp = arena[off : off+lens[2*i]]
+			}
+			off += lens[2*i]
+			es[i].sct = arena[off : off+lens[2*i+1]]
+			off += lens[2*i+1]
+		}
+		checkChain(r, es, "arena-windows", 1)
 	}
 	// several chains in one stream
 	for si := 0; si < 9; si++ {
